@@ -723,7 +723,8 @@ class Link(SimComponent):
     def endpoint_down(self):
         """Let the Link know and endpoint has been brought down."""
         if not self.is_up:
-            self.current_load = 0.0
+            # what the link has already carried in this timestep still counts against this timestep's bandwidth:
+            # the load is reset at the start of every timestep (pre_timestep), not when an endpoint goes down
             _LOGGER.debug(f"Link {self} down")
 
     @property
